@@ -12,7 +12,7 @@ unit('buffer', functions=funcs, spec=None, harness='harness/buffer_gen.c')
 for B, A, S in INST:
     quick = S in ('char', 'char32_t')
     for op in OPS:
-        job('buffer', '%s.%s' % (S, op), 'h_%s_%s' % (S, op), ['C05'] + (['C04'] if op in ('ctor_copy', 'assign_copy', 'accessors') else []), tier='quick' if quick else 'thorough',
+        job('buffer', '%s.%s' % (S, op), 'h_%s_%s' % (S, op), ['C05'] + (['C04'] if op in ('ctor_copy', 'assign_copy', 'accessors', 'ctor_move', 'assign_move', 'assign_move_self', 'assign_copy_self') else []), tier='quick' if quick else 'thorough',
             expect=[r'%s_%s\.postcondition\.1' % (B, op)], timeout=900)
         if op in ALLOCATING:
             job('buffer', '%s.%s.fault' % (S, op), 'h_%s_%s' % (S, op), ['C19'], tier='quick' if quick else 'thorough', defines=['FAULT'],
